@@ -363,9 +363,17 @@ func c44TagEndToEnd(t *rapid.T, ctx context.Context, s string) (classes []string
 	return append(classes, "e2e_tag_created")
 }
 
+// c44NamesCase: one name goes through the validators and the end-to-end create/read/resolve/
+// delete step (a repository per case), seven more through the validators only.
 func c44NamesCase(t *rapid.T, rec *vh.Recorder) {
+	c44OneName(t, rec, c44GenName(t, "name"), true)
+	for k := 0; k < 7; k++ {
+		c44OneName(t, rec, c44GenName(t, fmt.Sprintf("extra%d", k)), false)
+	}
+}
+
+func c44OneName(t *rapid.T, rec *vh.Recorder, s string, endToEnd bool) {
 	ctx := context.Background()
-	s := c44GenName(t, "name")
 	v := c44Violations(s)
 	var classes []string
 
@@ -411,7 +419,7 @@ func c44NamesCase(t *rapid.T, rec *vh.Recorder) {
 		}
 	}
 
-	if !strings.HasPrefix(s, "refs/") && s != "zzbase" {
+	if endToEnd && !strings.HasPrefix(s, "refs/") && s != "zzbase" {
 		if wantUser {
 			classes = append(classes, c44BranchEndToEnd(t, ctx, s)...)
 		}
@@ -696,6 +704,6 @@ func TestVerif_C44(t *testing.T) {
 		"specs carry no surrounding whitespace (NewCommitSpec trims, SplitAncestorSpec alone does not)")
 	defer recNames.Write(t)
 	defer recSpecs.Write(t)
-	vh.Check(t, "names", 30000, 60000, func(rt *rapid.T) { c44NamesCase(rt, recNames) })
+	vh.Check(t, "names", 4000, 6000, func(rt *rapid.T) { c44NamesCase(rt, recNames) })
 	vh.Check(t, "specs", 600, 400, func(rt *rapid.T) { c44SpecsCase(rt, recSpecs) })
 }
